@@ -139,6 +139,7 @@ def check(ctx):
     ctx.rule("R7", "what a command edits in place is its own: the overlay mapping a stage receives is created for that stage (SubprocSpec.run() writes __ALIAS_NAME into it, handlers may add keys) - never an object that outlives the command", floor=1)
     ctx.rule("R9", "a redirection of a process-wide stream that is entered on worker threads is installed once and removed once, however the threads overlap: every context manager in ProcProxyThread.run that stores into sys.<stream> counts its users under a lock (install on 0 -> 1, restore on 1 -> 0); a manager that saves what it finds and restores what it saved, per thread, leaves the dispatcher installed for good when two alias threads overlap and end in the order they started", floor=2)
     ctx.rule("R8", "whoever replaced sys.stdout / sys.stderr puts the saved stream back unconditionally: on every path of the restore step (_TeeStd._replace_std, _RedirectStream.__exit__) the saved stream is stored into sys.<name>, unless the path is governed by 'nothing was installed' (`saved is None`) - a restore that first asks who is installed now is skipped whenever two redirections overlap and end out of order, and the session keeps the wrong stream", floor=2)
+    ctx.rule("R10", "the loop that waits for a foreground pipeline stays alive until every stage is over: each 'is anyone still running' predicate of self in the condition of the polling loop (the while that asks the last stage's poll()) asks every member of the list the constructor collected the started stages in - its iteration domain is that list itself on every path (no slice, no filter, no state flag that narrows it) and a falsy answer is given only after the whole domain was walked", floor=2)
     ctx.rule("R6", "process-wide state (cwd, sys.std*, terminal foreground group) is changed in xonsh/procs only inside a paired construct; every way out of CommandPipeline.end (explicit raises included) hands the terminal back", floor=3)
 
     # ------------------------------------------------------------------ R1
@@ -518,6 +519,7 @@ def check(ctx):
     _oo(ctx, ctx.repo.module("xonsh/procs/specs.py"), rule="R7")
     _stream_restore_unconditional(ctx)
     _threaded_redirect_counted(ctx)
+    _polling_predicate_total(ctx)
 
 
 
@@ -541,6 +543,97 @@ def _stream_restore_unconditional(ctx):
                 ctx.ob("R8", st, "a path through the restore step stores the saved stream into sys.<name>" + (" (or nothing was installed)" if not restored else ""), ok, key=f"{q}|restore-skipped|{';'.join(sorted(('' if pol else 'not ') + t for t, pol in lits))[:120]}", where=loc(fn), detail=None if ok else "path taken when: " + "; ".join(("" if pol else "not ") + t for t, pol in lits))
         if n_paths == 0:
             raise AnalysisError(f"{st}: no path enumerated")
+
+
+def _polling_predicate_total(ctx):
+    """R10: the liveness predicate of the polling loop quantifies over every started stage."""
+    from ..engine import dataflow as _df
+    from ..engine import cfg as _cfg
+
+    pl = ctx.repo.module(PL)
+    cls = pl.cls("CommandPipeline")
+    ms = class_methods(cls)
+    init = ms["__init__"]
+    # the list of started stages, by role: the attribute of self the constructor appends what spec.run() returned to
+    started = set()
+    idefs = _df.all_defs(init)
+    for c in calls_in(init):
+        if isinstance(c.func, ast.Attribute) and c.func.attr == "append" and unparse(c.func.value).startswith("self.") and c.args:
+            a = c.args[0]
+            srcs = [a] + ([d.value for d in idefs.get(a.id, []) if d.value is not None] if isinstance(a, ast.Name) else [])
+            if any(isinstance(x, ast.Call) and (call_name(x) or "").endswith(".run") for s_ in srcs for x in ast.walk(s_)):
+                started.add(unparse(c.func.value))
+    if len(started) != 1:
+        raise AnalysisError(f"{PL}:CommandPipeline.__init__: the list of started stages not identified ({sorted(started)})")
+    dom = started.pop()
+
+    def expand(defs, e, depth=5):
+        """every expression a name may stand for (all definitions)"""
+        if isinstance(e, ast.Name) and depth and e.id in defs:
+            out = []
+            for d in defs[e.id]:
+                if d.kind in ("assign", "walrus") and d.value is not None and d.index is None:
+                    out += expand(defs, d.value, depth - 1)
+                else:
+                    out.append(e)
+            return out
+        if isinstance(e, ast.IfExp):
+            return expand(defs, e.body, depth) + expand(defs, e.orelse, depth)
+        if isinstance(e, ast.Call) and call_name(e) in ("list", "tuple", "iter", "reversed", "sorted") and len(e.args) == 1 and not e.keywords:
+            return expand(defs, e.args[0], depth)
+        return [e]
+
+    n_loops = n_preds = 0
+    for q, fn in sorted(ms.items()):
+        for w in [x for x in walk_local(fn) if isinstance(x, ast.While)]:
+            polls = [c for c in ast.walk(w.test) if isinstance(c, ast.Call) and isinstance(c.func, ast.Attribute) and c.func.attr == "poll"]
+            if not polls:
+                continue
+            preds = [c for c in ast.walk(w.test) if isinstance(c, ast.Call) and isinstance(c.func, ast.Attribute) and unparse(c.func.value) == "self" and c.func.attr in ms]
+            if not preds:
+                continue
+            n_loops += 1
+            for pc in preds:
+                pf = flat(ctx, ms[pc.func.attr], 2)
+                st = f"{PL}:CommandPipeline.{pc.func.attr}"
+                defs = _df.all_defs(pf)
+                # iteration constructs that ask poll() of their element
+                iters = []
+                for n in walk_local(pf):
+                    if isinstance(n, ast.For):
+                        tn = {x.id for x in ast.walk(n.target) if isinstance(x, ast.Name)}
+                        if any(isinstance(c, ast.Call) and isinstance(c.func, ast.Attribute) and c.func.attr == "poll" and {x.id for x in ast.walk(c.func.value) if isinstance(x, ast.Name)} & tn for b in n.body for c in ast.walk(b)):
+                            iters.append((n, n.iter, None))
+                    elif isinstance(n, (ast.GeneratorExp, ast.ListComp, ast.SetComp)):
+                        g = n.generators[0]
+                        tn = {x.id for x in ast.walk(g.target) if isinstance(x, ast.Name)}
+                        if any(isinstance(c, ast.Call) and isinstance(c.func, ast.Attribute) and c.func.attr == "poll" and {x.id for x in ast.walk(c.func.value) if isinstance(x, ast.Name)} & tn for c in ast.walk(n.elt)):
+                            iters.append((n, g.iter, n.generators))
+                if not iters:
+                    raise AnalysisError(f"{st}: in the condition of the polling loop of {q} but no iteration that polls its elements found")
+                n_preds += 1
+                for node, it, gens in iters:
+                    alts = expand(defs, it)
+                    bad = [a for a in alts if unparse(a) != dom]
+                    filt = bool(gens) and (len(gens) > 1 or bool(gens[0].ifs))
+                    ok = not bad and not filt
+                    ctx.ob("R10", st, f"the predicate in the polling loop's condition ({q}) walks {dom} itself", ok, key=f"{pc.func.attr}|domain-narrowed|{unparse(bad[0])[:40] if bad else ('filter' if filt else '')}", where=loc(node), detail=None if ok else (f"on some path the domain is `{short(bad[0], 50)}`, not every started stage" if bad else "the comprehension filters its domain") + ": a stage left out is never polled again - the loop ends while it is still running and nobody reaps it")
+                # a falsy answer only after the whole domain was walked
+                g = _cfg.CFG(pf)
+                loops = [n for n, _, gens in iters if gens is None]
+                for r in [x for x in walk_local(pf) if isinstance(x, ast.Return)]:
+                    v = r.value
+                    falsy = v is None or (isinstance(v, ast.Constant) and not v.value)
+                    if not falsy:
+                        comps = [n for n, _, gens in iters if gens is not None and lexically_inside(n, r)]
+                        if comps:
+                            ctx.ob("R10", st, "the answer is computed over the whole walk (any/all over every stage)", True, key=f"{pc.func.attr}|early-false", where=loc(r))
+                        continue
+                    inside = any(lexically_inside(r, lp) for lp in loops)
+                    passes = bool(loops) and not inside and all(g.dominated(rn, lambda m, lp=loops: any(m.ast is l_ for l_ in lp)) for rn in g.nodes_of(r))
+                    ctx.ob("R10", st, "a falsy answer ('nobody is running') is given only after the walk over every stage", passes, key=f"{pc.func.attr}|early-false", where=loc(r), detail=None if passes else "this return is reached without walking the whole list (inside the loop, or on a path that skips it)")
+    if n_loops == 0:
+        raise AnalysisError(f"{PL}:CommandPipeline: no polling loop (while ... .poll() ... self.<predicate>()) found")
 
 
 def _threaded_redirect_counted(ctx):
